@@ -36,7 +36,10 @@ Inductive xop :=
 | XFlush
 | XRemove (t : N) (err_i : N)
 | XReapTxs (n : Z) (res_i : list N)
-| XReapBG (b g : Z) (res_i : list N).
+| XReapBG (b g : Z) (res_i : list N)
+(* a run of CheckTx calls observed only at its end (large pools): per call
+   (tx, peer, application answer, error class, application asked) *)
+| XBulk (items : list (N * N * vt * N * bool)).
 
 Inductive case :=
 | CV0 (alphabet : list string) (cfg : cfgt) (h0 : Z) (pre post : option Z) (steps : list (xop * obs))
@@ -113,14 +116,18 @@ Fixpoint spec_prefix_len (b g bs gs : Z) (l : list (tx * Z)) : nat :=
 (* ------------------------------------------------------------------ monitors on the
    implementation's own answers.  [v1] selects the ordering rule. *)
 
-(* the order reaps must follow, with gas: v0 the list walk, v1 the ReapMaxTxs(-1) answer with
-   the gas of the walk *)
+(* the order reaps must follow, with gas, computed from the implementation's own list walk:
+   v0 the walk itself (arrival order); v1 the walk sorted by priority descending, entries of
+   equal priority staying in arrival order (stable insertion sort, independent of the model's) *)
+Fixpoint ins_ent (e : ent) (l : list ent) : list ent :=
+  match l with
+  | [] => [e]
+  | y :: r => if ent_prio y >? ent_prio e then y :: ins_ent e r else e :: l
+  end.
+Definition spec_order1 (pool : list ent) : list ent := fold_right ins_ent [] pool.
+
 Definition impl_order (v1 : bool) (al : list tx) (o : obs) : list (tx * Z) :=
-  if v1 then
-    map (fun i => let t := txof al i in
-                  (t, match rank_of al t (obs_pool o) 0 with Some (_, e) => ent_gas e | None => 0 end))
-        (obs_reapall o)
-  else map (fun e => (ent_tx al e, ent_gas e)) (obs_pool o).
+  map (fun e => (ent_tx al e, ent_gas e)) (if v1 then spec_order1 (obs_pool o) else obs_pool o).
 
 (* v1: ReapMaxTxs(-1) is ordered by priority descending, ties by arrival *)
 Fixpoint v1_sorted (al : list tx) (pool : list ent) (l : list tx) : bool :=
@@ -151,6 +158,7 @@ Definition state_monitors (v1 : bool) (al : list tx) (cfg : config) (o : obs) : 
     viol (if v1
           then Nat.eqb (length ra) (length p) && forallb (fun t => mem_tx t p) ra
                && v1_sorted al (obs_pool o) ra
+               && txs_eqb ra (map (ent_tx al) (spec_order1 (obs_pool o)))
           else txs_eqb ra p) (cl v1 11);
     viol (nodupN (obs_cache o) &&
           ((cfg_cache_size cfg <=? 0) || (Z.of_nat (length (obs_cache o)) <=? cfg_cache_size cfg))) (cl v1 12) ].
@@ -197,6 +205,9 @@ Definition op_monitors (v1 : bool) (al : list tx) (cfg : config) (post : option 
     let ordg := impl_order v1 al before in
     let res := map (txof al) res_i in
     [ viol (txs_eqb res (firstn (spec_prefix_len b g 0 0 ordg) (map fst ordg))) (cl v1 8) ]
+  | XBulk items =>
+    (* v0 CheckTx never removes; the state monitors apply to the state reached *)
+    [ viol (v1 || subseq pb pa) (cl v1 10) ]
   end.
 
 (* ------------------------------------------------------------------ model side *)
@@ -235,6 +246,27 @@ Definition cmp_obs1 (al : list tx) (s : state1) (o : obs) : list verdict :=
 
 Definition empty_obs : obs := Obs [] [] 0 0 0 0 [].
 
+Definition bulk_item_eqb (a b : N * bool) : bool := (fst a =? fst b)%N && Bool.eqb (snd a) (snd b).
+
+Fixpoint run_bulk0 (al : list tx) (cfg : config) (s : state0) (items : list (N * N * vt * N * bool))
+  : state0 * list (N * bool) :=
+  match items with
+  | [] => (s, [])
+  | (t, peer, v, _, _) :: r =>
+    let '(s', e, asked) := checktx0 cfg s (txof al t) peer (mk_res v) in
+    let '(s'', l) := run_bulk0 al cfg s' r in (s'', (err_code e, asked) :: l)
+  end.
+Fixpoint run_bulk1 (al : list tx) (cfg : config) (s : state1) (items : list (N * N * vt * N * bool))
+  : state1 * list (N * bool) :=
+  match items with
+  | [] => (s, [])
+  | (t, peer, v, _, _) :: r =>
+    let '(s', e, asked) := checktx1 cfg s (txof al t) peer (mk_res v) in
+    let '(s'', l) := run_bulk1 al cfg s' r in (s'', (err_code e, asked) :: l)
+  end.
+Definition bulk_impl (items : list (N * N * vt * N * bool)) : list (N * bool) :=
+  map (fun it => let '(_, _, _, e, a) := it in (e, a)) items.
+
 Fixpoint run_steps0 (al : list tx) (cfg : config) (s : state0) (before : obs)
          (steps : list (xop * obs)) : list verdict :=
   match steps with
@@ -255,6 +287,9 @@ Fixpoint run_steps0 (al : list tx) (cfg : config) (s : state0) (before : obs)
       | XReapTxs n res_i => (s, [ mism (txs_eqb (reap_max_txs0 s n) (map (txof al) res_i)) 35 ])
       | XReapBG b g res_i =>
         (s, [ mism (txs_eqb (reap_max_bytes_gas0 s b g) (map (txof al) res_i)) 36 ])
+      | XBulk items =>
+        let '(s', l) := run_bulk0 al cfg s items in
+        (s', [ mism (list_eqb bulk_item_eqb l (bulk_impl items)) 31 ])
       end in
     mon ++ cmp ++ cmp_obs0 al s' after ++ run_steps0 al cfg s' after rest
   end.
@@ -279,6 +314,9 @@ Fixpoint run_steps1 (al : list tx) (cfg : config) (s : state1) (before : obs)
       | XReapTxs n res_i => (s, [ mism (txs_eqb (reap_max_txs1 s n) (map (txof al) res_i)) 35 ])
       | XReapBG b g res_i =>
         (s, [ mism (txs_eqb (reap_max_bytes_gas1 s b g) (map (txof al) res_i)) 36 ])
+      | XBulk items =>
+        let '(s', l) := run_bulk1 al cfg s items in
+        (s', [ mism (list_eqb bulk_item_eqb l (bulk_impl items)) 31 ])
       end in
     mon ++ cmp ++ cmp_obs1 al s' after ++ run_steps1 al cfg s' after rest
   end.
